@@ -7,7 +7,7 @@ oracle : exact-Fraction statement of the property on the real outputs (grid, mon
          p-box contains the empirical quantiles and equals the closed-form order statistics, unsupported alpha raises)
 """
 from __future__ import annotations
-import math, copy, bisect, json
+import math, copy, bisect, json, collections, gc
 from fractions import Fraction as F
 import numpy as np
 from . import core
@@ -41,8 +41,10 @@ def build(c):
         return list(s)
     if cont == "col":
         return np.array(s, dtype=float).reshape(-1, 1)
-    if cont == "intarray" and all(float(x).is_integer() for x in s):
-        return np.array([int(x) for x in s])
+    if cont in ("intarray", "int32", "intlist") and all(float(x).is_integer() and abs(x) < 2 ** 31 for x in s):
+        if cont == "intlist":
+            return [int(x) for x in s]          # list of Python ints
+        return np.array([int(x) for x in s], dtype=np.int32 if cont == "int32" else np.int64)
     return np.array(s, dtype=float)
 
 
@@ -57,7 +59,33 @@ def _fl(a):
     return [float(x) for x in np.asarray(a, dtype=float).ravel()]
 
 
-def run_impl(c):
+def _snap(obj):
+    """canonical copy of the operand handed to KS_bounds (to check it is not modified)"""
+    I = _mods()[2]
+    if isinstance(obj, I):
+        return ("I", np.array(obj.lo, dtype=float).tobytes(), np.array(obj.hi, dtype=float).tobytes())
+    if isinstance(obj, np.ndarray):
+        return ("A", str(obj.dtype), obj.shape, obj.tobytes())
+    return ("L", tuple(type(x).__name__ for x in obj), tuple(obj))
+
+
+def _canon_band(u, l):
+    return ("ok", _fl(u.quantiles), _fl(u.probabilities), _fl(l.quantiles), _fl(l.probabilities))
+
+
+def _ks(data, a, c, **kw):
+    """the call under test; with c['display'] the display argument is LEFT AT ITS DEFAULT (True): Agg backend, figures closed"""
+    KS_bounds = _mods()[0]
+    if c.get("display"):
+        import matplotlib.pyplot as plt
+        try:
+            return KS_bounds(data, a, **kw)
+        finally:
+            plt.close("all")
+    return KS_bounds(data, a, display=False, **kw)
+
+
+def run_impl(c, keep=False):
     KS_bounds, d_alpha, I, Params = _mods()
     n = len(c["lo"]) if c["kind"] == "interval" else len(c["s"])
     a = alpha_obj(c)
@@ -67,16 +95,24 @@ def run_impl(c):
             out["D"] = ("ok", float(d_alpha(n, a)))
         except BaseException as e:  # noqa
             out["D"] = ("err", err_kind(e))
+        data = build(c)
+        snap = _snap(data)
+        u = l = p = None
         try:
-            u, l = KS_bounds(build(c), a, display=False)
-            out["band"] = ("ok", _fl(u.quantiles), _fl(u.probabilities), _fl(l.quantiles), _fl(l.probabilities))
+            u, l = _ks(data, a, c)
+            out["band"] = _canon_band(u, l)
         except BaseException as e:  # noqa
             out["band"] = ("err", err_kind(e))
         try:
-            p = KS_bounds(build(c), a, display=False, output_type="pbox")
+            p = _ks(data, a, c, output_type="pbox")
             out["pbox"] = ("ok", _fl(p.left), _fl(p.right))
         except BaseException as e:  # noqa
             out["pbox"] = ("err", err_kind(e))
+        out["input_unchanged"] = _snap(data) == snap
+        # the bundles returned by the first call must not have been touched by the second call
+        out["band_stable"] = (u is None) or _canon_band(u, l) == out["band"]
+    if keep:
+        out["_objs"] = (u, l, p, data, snap)
     return out
 
 
@@ -146,10 +182,18 @@ def _scale_vals(rng, n, style):
         return [rng.randint(-40, 40) / 8 for _ in range(n)]
     if style == "lognormal":
         return [math.exp(rng.gauss(0, 1.5)) for _ in range(n)]
+    if style == "tiny12":        # data recorded in tiny units
+        e = rng.choice([1e-9, 1e-10, 1e-12, 1e-15])
+        return [rng.gauss(0, 1) * e for _ in range(n)]
+    if style == "offset":        # large location, comparatively small gaps (ties likely)
+        off = rng.choice([2e6, 1e7, 1e9])
+        return [off + 3.0 * rng.randint(-n, n) for _ in range(n)]
+    if style == "bigints":
+        return [float(rng.randint(-10 ** 9, 10 ** 9)) for _ in range(n)]
     return [rng.gauss(rng.uniform(-3, 3), 1) for _ in range(n)]
 
 
-STYLES = ["ints", "ints", "normal", "normal", "tiny", "huge", "dyadic", "lognormal", "const"]
+STYLES = ["ints", "ints", "normal", "normal", "tiny", "huge", "dyadic", "lognormal", "const", "tiny12", "offset", "bigints"]
 
 
 def _size(rng, big):
@@ -200,13 +244,15 @@ UNSUPPORTED = [0.2, 0.01, 0.5, 0.95, 0.9, 0.975, 0.0, 1.0, -0.05, 2.0, 0.15 - 0.
 def gen_cases(ctx):
     rng = ctx.rng
     cases = []
+    pdisp = ctx.scale(30, 4) / 100      # share of calls made with display left at its default (a figure each)
     # 1. grid: every sample over {0,1,2} of size 2..4 (all tie patterns, all orders) x the three levels
     import itertools
     for n in (2, 3, 4):
         for s in itertools.product([0.0, 1.0, 2.0], repeat=n):
             for a in SUPPORTED:
                 cases.append({"stream": "grid-small", "kind": "precise", "s": list(s), "alpha": a,
-                              "cont": "list" if (n + int(s[0])) % 2 else "array"})
+                              "cont": ["list", "array", "intlist", "intarray", "int32"][len(cases) % 5],
+                              "display": len(cases) % 7 == 0})
     # 1b. every size 2..500 once (D stream: positivity / monotonicity / accuracy on the whole quantifier range)
     for n in range(1, 501):
         for a in SUPPORTED:
@@ -217,7 +263,8 @@ def gen_cases(ctx):
         st = rng.choice(STYLES)
         cases.append({"stream": "random-precise", "kind": "precise", "s": _scale_vals(rng, n, st), "style": st,
                       "alpha": rng.choice(SUPPORTED), "alpha_np": rng.random() < 0.2,
-                      "cont": rng.choice(["array", "array", "list", "col", "intarray"])})
+                      "cont": rng.choice(["array", "array", "list", "col", "intarray", "int32", "intlist"]),
+                      "display": n <= 150 and rng.random() < pdisp})
     # 3. random interval samples with selections
     for i in range(ctx.scale(110, 5000)):
         n = _size(rng, 500 if i % 7 == 0 else 120)
@@ -227,7 +274,24 @@ def gen_cases(ctx):
         lo = [m - w for m, w in zip(mid, wl)]
         hi = [m + w for m, w in zip(mid, wr)]
         cases.append({"stream": "random-interval", "kind": "interval", "lo": lo, "hi": hi, "style": st,
-                      "alpha": rng.choice(SUPPORTED), "nsel": 3})
+                      "alpha": rng.choice(SUPPORTED), "nsel": 3, "display": n <= 150 and rng.random() < pdisp})
+    # 3b. thin-but-wide interval data: widths comparable to the spread, yet below numpy's default closeness
+    #     tolerances (atol 1e-8, rtol 1e-5): tiny units, or a large location with small gaps
+    for i in range(ctx.scale(36, 1200)):
+        n = rng.choice([2, 3, 5, 8, 20, 60])
+        if i % 2 == 0:
+            e = [1e-9, 1e-10, 1e-12, 1e-15][(i // 2) % 4]
+            mid = [rng.gauss(0, 1) * e for _ in range(n)]
+            lo = [m - rng.uniform(0.2, 1.5) * e for m in mid]
+            hi = [m + rng.uniform(0.2, 1.5) * e for m in mid]
+        else:
+            off = [2e6, 1e7, 1e9][(i // 2) % 3]
+            g = off * 1.5e-6                   # gap 3 at 2e6
+            mid = [off + g * rng.randint(-n, n) for _ in range(n)]
+            lo = [m - g * rng.choice([1, 4 / 3, 0.5]) for m in mid]
+            hi = [m + g * rng.choice([1, 4 / 3, 0.5]) for m in mid]
+        cases.append({"stream": "thin-interval", "kind": "interval", "lo": lo, "hi": hi, "style": "thin",
+                      "alpha": SUPPORTED[i % 3], "nsel": 2, "display": i % 6 == 0})
     # 4. unsupported levels (always contains the known-finding witness alpha=0.2)
     for j, a in enumerate(UNSUPPORTED):
         n = [5, 2, 17, 100][j % 4]
@@ -504,12 +568,78 @@ def same_lists_exact(impl, model):
     return True
 
 
+# ---------------------------------------------------------------------------- theme A: state / aliasing
+def verify_ring(ctx, ring, when):
+    """re-read the REAL result objects of earlier cases, their operands, and repeat the call"""
+    for c, objs, canon in ring:
+        u, l, p, data, snap = objs
+        bad = []
+        if u is not None and _canon_band(u, l) != canon["band"]:
+            bad.append(("result-modified-later", "the bundles returned earlier changed after later calls"))
+        if p is not None and ("ok", _fl(p.left), _fl(p.right)) != canon["pbox"]:
+            bad.append(("result-modified-later", "the p-box returned earlier changed after later calls"))
+        if _snap(data) != snap:
+            bad.append(("input-modified", "the sample handed to KS_bounds was modified"))
+        again = run_impl(c)
+        for part in ("D", "band", "pbox"):
+            if json.dumps(again[part]) != json.dumps(canon[part]):      # nan-safe, exact on floats
+                bad.append(("repeat-call-differs", f"calling again ({when}) gives a different {part}"))
+                break
+        for sym, what in bad:
+            ctx.fail(feat(c, "KS_bounds", sym, n=canon["n"]), cj(c), what)
+        ctx.bump("ring-verified")
+
+
+ALIAS_WITNESS = {"stream": "aliasing", "kind": "precise", "s": [3.0, 1.0, 2.0, 2.0, 5.0], "alpha": 0.05, "cont": "array"}
+
+
+def aliasing_stream(ctx):
+    """the documented two-step route: bounds first, then `pbox_from_ecdf_bundle(ub, lb)`.  The p-box must equal the
+    one-step result and the bounds the caller holds must still be the band."""
+    from pyuncertainnumber.pba.pbox_abc import pbox_from_ecdf_bundle
+    KS_bounds = _mods()[0]
+    rng = ctx.rng
+    cs = [dict(ALIAS_WITNESS)]
+    for _ in range(ctx.scale(5, 60)):
+        n = rng.randint(2, 30)
+        v = _scale_vals(rng, n, rng.choice(["ints", "normal", "tiny12", "offset"]))
+        if rng.random() < 0.5:
+            cs.append({"stream": "aliasing", "kind": "precise", "s": v, "alpha": rng.choice(SUPPORTED), "cont": "array"})
+        else:
+            cs.append({"stream": "aliasing", "kind": "interval", "lo": v, "hi": [x + abs(x) * 0.5 + 1e-12 for x in v],
+                       "alpha": rng.choice(SUPPORTED)})
+    for c in cs:
+        ctx.count(("alias", json.dumps(cj(c), default=str)), True, "aliasing")
+        n = len(c["lo"]) if c["kind"] == "interval" else len(c["s"])
+        with np.errstate(all="ignore"):
+            try:
+                u, l = KS_bounds(build(c), c["alpha"], display=False)
+                before = _canon_band(u, l)
+                P2 = pbox_from_ecdf_bundle(u, l)
+                after = _canon_band(u, l)
+                P1 = KS_bounds(build(c), c["alpha"], display=False, output_type="pbox")
+            except BaseException as e:  # noqa
+                ctx.fail(feat(c, "pbox_from_ecdf_bundle", "two-step-raises", n=n), cj(c), f"bounds -> pbox_from_ecdf_bundle raised {type(e).__name__}: {e}")
+                continue
+        if _fl(P1.left) != _fl(P2.left) or _fl(P1.right) != _fl(P2.right):
+            ctx.fail(feat(c, "pbox_from_ecdf_bundle", "two-step-pbox-differs", n=n), cj(c),
+                     "pbox_from_ecdf_bundle(ub, lb) differs from KS_bounds(..., output_type='pbox')")
+        if after != before:
+            ctx.fail(feat(c, "pbox_from_ecdf_bundle", "bounds-modified-in-place", n=n),
+                     {**cj(c), "lower_before": before[3:], "lower_after": after[3:]},
+                     f"after pbox_from_ecdf_bundle(ub, lb) the caller's bounds changed: lengths {[len(x) for x in before[1:]]} -> "
+                     f"{[len(x) for x in after[1:]]} (extend_ecdf works in place): the lower bound now claims F(x_max) >= 1 and the two bounds are no longer on a common grid")
+
+
 def run(ctx: core.Check, cases=None):
     ctx.rule = ("streams: every sample over {0,1,2} of size 2-4 x the 3 levels (all tie patterns); every n in 1..500 x 3 levels "
                 "for d_alpha; random precise samples n in 2..500 (integers with ties, constant, dyadic, 1e-9..1e9 scales, lognormal; "
                 "list / ndarray / int ndarray / column vector); random interval samples (zero, constant, small, mixed, wide widths) "
                 "each with lo/hi/mid + 3 random selections (uniform, endpoint mix, piled ties); 21 fixed + random unsupported levels "
                 "(neighbours of the table keys, confidence-level confusions, 0, 1, negative, nan, inf); empty sample; synthetic bundles "
+                "with about a third of the calls made as KS_bounds(s, alpha[, output_type='pbox']) with display LEFT AT ITS DEFAULT (Agg backend); "
+                "thin-but-wide interval data (units 1e-9..1e-15, locations 2e6..1e9 with gaps 3e-6 relative); integer lists / int32 / int64 samples; "
+                "every third result object kept alive and re-read + call repeated after later calls; the two-step route bounds -> pbox_from_ecdf_bundle; "
                 "through Staircase.from_CDFbundle (crossing pairs must raise, as the Pbox constructor does since 1ca78ea). Non-trivial: sample not constant (or interval/unsupported/bundle case); "
                 "distinctness on the full case description.")
     ctx.assumptions = [
@@ -531,17 +661,31 @@ def run(ctx: core.Check, cases=None):
     pv = pvalues()
     rng = ctx.rng
     impls, reqs, spans = [], [], []
+    ring = collections.deque(maxlen=30)
+    nfull = 0
     for c in cases:
         if c["kind"] == "bundles":
             impl = run_bundles_impl(c)
         elif c["kind"] == "donly":
             impl = None
         else:
-            impl = run_impl(c)
+            impl = run_impl(c, keep=True)
+            objs = impl.pop("_objs")
+            nfull += 1
+            if impl["band"][0] == "ok" and (nfull % 3 == 0 or c.get("display")):
+                ring.append((c, objs, dict(impl)))
+            del objs
+            if nfull % 250 == 0:
+                verify_ring(ctx, list(ring), "after unrelated calls")
         impls.append(impl)
         rs = requests_for(c, impl, pv)
         spans.append((len(reqs), len(rs), [t for t, _ in rs]))
         reqs += [l for _, l in rs]
+    gc.collect()
+    verify_ring(ctx, list(ring), "at the end of the run")
+    ring.clear()
+    if ctx_full_run(cases):
+        aliasing_stream(ctx)
     replies = core.model_batch("C17", reqs)
     d_alpha = _mods()[1]
     for c, impl, (st, k, tags) in zip(cases, impls, spans):
@@ -644,6 +788,13 @@ def run(ctx: core.Check, cases=None):
         # ---- oracle (independent of the model)
         if n == 0:
             continue
+        if not impl.get("input_unchanged", True):
+            ctx.fail(feat(c, "KS_bounds", "input-modified", n=n), cj(c), "KS_bounds modified the sample it was given")
+        if not impl.get("band_stable", True):
+            ctx.fail(feat(c, "KS_bounds", "result-modified-later", n=n), cj(c),
+                     "the bounds returned by KS_bounds(..., 'bounds') changed during the following KS_bounds(..., 'pbox') call")
+        if c.get("display"):
+            ctx.bump("display-default")
         if not sup:
             for part, call in (("D", "d_alpha"), ("band", "KS_bounds(bounds)"), ("pbox", "KS_bounds(pbox)")):
                 if impl[part][0] != "err":
@@ -670,7 +821,7 @@ def run(ctx: core.Check, cases=None):
             uq, up, lq, lp = impl["band"][1:]
             L, R = impl["pbox"][1:]
             for nm, x in sels:
-                cx = {"kind": "precise", "s": x, "alpha": a, "cont": "array", "stream": stream}
+                cx = {"kind": "precise", "s": x, "alpha": a, "cont": "array", "stream": stream, "display": False}
                 ix = run_impl(cx)
                 ctx.bump("selection:" + nm)
                 if ix["band"][0] != "ok" or ix["pbox"][0] != "ok":
@@ -693,8 +844,13 @@ def run(ctx: core.Check, cases=None):
                     ctx.fail(feat(c, "KS_bounds(pbox)", "interval-pbox-misses-selection", n=n, selection=nm),
                              {**cj(c), "selection": x}, f"the p-box of the interval data does not contain the p-box of selection '{nm}'")
                     break
-        if len(ctx.samples) < 6 and stream in ("random-precise", "random-interval") and n <= 6:
+        if len(ctx.samples) < 6 and stream in ("random-precise", "random-interval", "thin-interval") and n <= 6:
             ctx.sample({"case": cj(c), "D": D, "impl_band": _js(impl["band"]), "model_band": rep.get("band", "")[:400]})
+
+
+def ctx_full_run(cases):
+    """the aliasing stream belongs to generated runs, not to the replay of one case"""
+    return len(cases) > 1
 
 
 def _gen(out):
